@@ -121,6 +121,11 @@ def module_source(helpers, roots, order, assign):
         # insert the library call before the final return
         lines = lines[:-1] + [LIB_CALL.rstrip("\n")] + lines[-1:]
         out.append("\n".join(lines) + "\n\n")
+    # kernels that use a shared, spec-reading helper as a first-class value (ilist.map); they are compiled (after the roots,
+    # one per spec in use) but not executed: spec injection does not reach such helpers (known finding F22 of C06), what
+    # matters here is that compiling them leaves the shared helper untouched
+    for k, slot in enumerate(sorted({a for a in assign if a})):
+        out.append(f"@move(arch_spec=_C07.SLOTS['{slot}'])\ndef mapk{k}(n: int):\n    return ilist.map(leafq, ilist.range(n))\n\n")
     return "".join(out)
 
 
